@@ -65,7 +65,8 @@ def run(rep, tier, seed, replay_file=None):
         "large magnitudes (values from 2^31 up to 2^62) are not enumerated by TLC: the results for them rest on (1) the "
         "ScaleLaw / LiftLaw / ExpectLaw of Hdr.tla - the bucket geometry and the expectations are invariant under "
         "(min, max, v) -> (min 2^c, max 2^(k+c), v 2^c or v 2^(k+c)) - which TLC checks for every shape, candidate value "
-        "and reachable state of the cfg files for k + c in 1..3 only (model values below 2^30), assumed to extend to "
+        "and reachable state of the cfg files for k + c in 1..3 only (k + c = 1 for the two shapes with max >= 2^28: model "
+        "values stay below 2^30), assumed to extend to "
         "larger k + c because the laws are statements about bit shifts that do not depend on the exponent, and (2) the "
         "replay of the same TLC-generated behaviours on the real code at k + c up to 61, judged with TransExpect of the "
         "printed expectations; large values are therefore always of the form (boundary-directed model value) * 2^t, "
@@ -152,7 +153,7 @@ def run(rep, tier, seed, replay_file=None):
         rep.infra_error("Hdr_law.cfg failed (%s): %s" % (r.violated, r.out[-1500:]))
         return
     laws = r.tagged.get("LAW", [])
-    behs = []
+    behs, src = [], []
     for name, _ in jobs:
         r = res[name]
         rep.add_tlc("Hdr/" + name, r, notes[name] + "; model invariants Conservation, GeometryOK, QuantileOK, IndexInRange, IteratorInBounds, "
@@ -160,7 +161,9 @@ def run(rep, tier, seed, replay_file=None):
         if not r.ok:
             rep.infra_error("behaviour generation %s failed (%s): %s" % (name, r.violated, r.out[-1500:]))
             return
-        behs += replay.dedupe(r.tagged.get("BEH", []))
+        new = replay.dedupe(r.tagged.get("BEH", []))
+        behs += new
+        src += [name] * len(new)
         del r.tagged["BEH"]
     rep.cov["exhaustive"] = True    # the canon*/full2 spaces are enumerated completely
     t0 = time.time()
@@ -169,16 +172,17 @@ def run(rep, tier, seed, replay_file=None):
     phases["replay"] = round(time.time() - t0, 1)
 
     # the same behaviours at large magnitudes.  quick: one variant per behaviour, drawn with the run's seed (every kind
-    # and split is hit by thousands of behaviours of every shape); thorough: every behaviour at every kind, the split drawn
+    # and split is hit by thousands of behaviours of every shape); thorough: the same for the three large enumerations,
+    # two kinds for full2, every kind (split drawn) for the merge, sigfigs 3..5 and random-walk sets
     rng = random.Random(seed)
     t0 = time.time()
     scaled, tally, top = [], {}, 0
-    for b in behs:
+    for b, origin in zip(behs, src):
         plans = _plans(b, rng)
-        if quick:
-            plans = [rng.choice(plans)]
-        else:
-            plans = [rng.choice([p for p in plans if p[0] == kind]) for kind in KINDS if any(p[0] == kind for p in plans)]
+        nkinds = 1 if quick or origin in ("canon3_all", "canon6_core", "boundary_full3") else 2 if origin == "full2" else len(KINDS)
+        avail = [kind for kind in KINDS if any(p[0] == kind for p in plans)]
+        kinds = rng.sample(avail, min(nkinds, len(avail)))
+        plans = [rng.choice([p for p in plans if p[0] == kind]) for kind in kinds]
         seen = set()
         for kind, split, k, c in plans:
             if (k, c) in seen:
